@@ -1,5 +1,5 @@
 """C02 — a version-2 dump yields exactly its records, in order, and its thread map."""
-import io
+from ..io_util import BudgetReader
 
 from hypothesis import strategies as st
 
@@ -26,9 +26,9 @@ def parse_one(api, parser_objs, blob):
     tp, pn, pk = parser_objs
     if api == 'kdbuf':
         p = KdBufParser(tp, pn)
-        items = list(p.parse(io.BytesIO(blob)))
+        items = list(p.parse(BudgetReader(blob)))
     else:
-        items = list(pk.kevents(io.BytesIO(blob)))
+        items = list(pk.kevents(BudgetReader(blob)))
     return items
 
 
